@@ -607,6 +607,8 @@ pub struct LogFacts {
     pub max_in_flight: usize,
     pub out_of_order: usize,
     pub err_overtook_results: bool,
+    /// the reader failed while earlier sets were filled but not yet received by the consumer
+    pub err_with_sets_in_flight: bool,
     pub tags_created: usize,
     pub reuse_max: usize,
     pub n_events: usize,
@@ -638,6 +640,7 @@ pub fn check_mock(sc: &Scenario, res: &MockResult, entries: &[Entry], findings: 
     let mut work_done_before_err_recv = 0usize;
     let mut err_recv_seen = false;
     let mut work_end_after_err = false;
+    let mut err_with_sets_in_flight = false;
     for e in entries {
         match &e.ev {
             Ev::Point(p) => {
@@ -674,7 +677,13 @@ pub fn check_mock(sc: &Scenario, res: &MockResult, entries: &[Entry], findings: 
                 *reuse.entry(*t).or_insert(0) += 1;
                 fp.u64(1000 + *b);
             }
-            Ev::FillNone(_) | Ev::FillErr(..) => fill_open -= 1,
+            Ev::FillNone(_) => fill_open -= 1,
+            Ev::FillErr(..) => {
+                fill_open -= 1;
+                if in_flight > 0 {
+                    err_with_sets_in_flight = true;
+                }
+            }
             Ev::WorkStart(t, _) => {
                 work_open += 1;
                 if !created.contains(t) {
@@ -835,6 +844,7 @@ pub fn check_mock(sc: &Scenario, res: &MockResult, entries: &[Entry], findings: 
         max_in_flight: max_in_flight.max(0) as usize,
         out_of_order,
         err_overtook_results: err_recv_seen && work_end_after_err,
+        err_with_sets_in_flight,
         tags_created: created.len(),
         reuse_max: reuse.values().copied().max().unwrap_or(0),
         n_events: entries.len(),
